@@ -1969,10 +1969,13 @@ class FileIterator(FileStorageFormatter):
             try:
                 h = self._read_txn_header(pos)
             except CorruptedDataError as err:
-                # If buf is empty, we've reached EOF.
-                if not err.buf:
-                    break
-                raise
+                # If buf is empty, we've reached EOF.  A few bytes are
+                # the start of a transaction cut short by a crash (or
+                # still being written); read_index stops there, too.
+                if err.buf:
+                    logger.warning("%s truncated at %s",
+                                   self._file.name, pos)
+                break
 
             if h.tid <= self._ltid:
                 logger.warning("%s time-stamp reduction at %s",
